@@ -15,6 +15,7 @@ import (
 	"math/rand"
 	"os"
 	"runtime/debug"
+	"time"
 
 	"github.com/mit-pdos/go-journal/addr"
 	"github.com/mit-pdos/go-journal/obj"
@@ -373,6 +374,16 @@ func runSimpleConc(seed int64, nclients, nops int, out string) {
 	rng := rand.New(rand.NewSource(seed))
 	d := NewSDisk(700)
 	srv := simple.MakeNfs(d)
+	if seed%2 == 1 {
+		// schedule noise around disk reads (the journal reads a block back when it installs a part of it): a call
+		// that gives up its lock before its commit is through gets the window widened
+		var k uint64
+		d.SlowRead = func(a uint64) {
+			if a >= 513 {
+				time.Sleep(time.Duration(30+atomic.AddUint64(&k, 1)%5*40) * time.Microsecond)
+			}
+		}
+	}
 	fmt.Fprintf(w, "SI\n")
 	h := make([]byte, 8)
 	binary.LittleEndian.PutUint64(h, uint64(2+rng.Intn(3)))
@@ -459,6 +470,14 @@ func runKvsConc(seed int64, nclients, nops int, out string) {
 	const sz = 760
 	d := NewSDisk(sz + 16)
 	store := kvs.MkKVS(d, sz)
+	if seed%2 == 1 {
+		// schedule noise around the reads of the key blocks (a store that reads before it writes gets its window widened)
+		d.SlowRead = func(a uint64) {
+			if a >= 513 && a < 520 {
+				time.Sleep(time.Duration(50+a%7*40) * time.Microsecond)
+			}
+		}
+	}
 	fmt.Fprintf(w, "KI %d\n", sz)
 	fmt.Fprintf(w, "M conc-begin %d\n", nclients)
 	type ev struct {
@@ -501,6 +520,10 @@ func runKvsConc(seed int64, nclients, nops int, out string) {
 						k := uint64(513 + (crng.Intn(4)+j)%4)
 						v := make([]byte, 4096)
 						v[0], v[1], v[2] = byte(id), byte(id>>8), byte(j)
+						if crng.Intn(2) == 0 {
+							// values from a set of two: a put often repeats what the key already holds
+							v[0], v[1], v[2] = byte(crng.Intn(2)), 0, 0
+						}
 						pairs = append(pairs, kvs.KVPair{Key: k, Val: v})
 						fmt.Fprintf(&sb, " %d %s", k, hexs(v[:8]))
 					}
